@@ -699,6 +699,7 @@ func props() []rp.Prop {
 		rp.P[dayText]{Name: "weekday-text", Checks: n / 8, Gen: genDayText, Check: checkDayText},
 		rp.P[addrText]{Name: "address-text", Checks: n / 4, Gen: genAddrText, Check: checkAddrText},
 		cold.Prop{Name: "aged-process", Scenario: "aged-process", N: map[bool]int{true: ev.Pick(1, 3), false: 0}[ev.Shard() == 0 || ev.Thorough() && ev.Shard() < 4]},
+		rp.P[faultSeq]{Name: "fault-sequences", Checks: ev.Pick(40, 4000) / ev.Shards(), Gen: genFaultSeq, Sweep: sweepFaultSeq, Check: checkFaultSeq},
 		rp.P[faultCase]{Name: "network-faults", Checks: ev.Pick(600, 40000) / ev.Shards(), Gen: genFault, Check: checkFault},
 		rp.P[slowCase]{Name: "slow-consumer", Sweep: func(yield func(slowCase) bool) {
 			for _, h := range []int{0, 40, 3200} {
